@@ -340,6 +340,121 @@ func Gen(r *h.Rand, tier string, prop string, emit func([]string)) {
 	for i := 0; i < ne; i++ {
 		emit(epochCase(r, prop))
 	}
+	if prop != "c01" {
+		nt := 60
+		if tier == "thorough" {
+			nt = 300
+		}
+		for i := 0; i < nt; i++ {
+			emit(tombCase(r, prop))
+		}
+	}
+}
+
+// tombCase: several successful range deletes land in the tombstone file of ONE TSM file, with
+// ranges that share a bound (same min / same max), are nested, or are equal, on the same and on
+// different series of the file; then the shard is cold-opened (the whole tombstone file is
+// replayed by TSMReader.applyTombstones, which batches consecutive tombstones by range) and
+// everything is read; optionally a compaction and another restart follow.
+func tombCase(r *h.Rand, prop string) []string {
+	g := newGenState(r, prop)
+	// two series, 1-2 fields each, all in the same file
+	s1 := r.Intn(len(SeriesKeys))
+	s2 := (s1 + 1 + r.Intn(len(SeriesKeys)-1)) % len(SeriesKeys)
+	f1, f2 := r.Intn(len(FieldNames)), r.Intn(len(FieldNames))
+	g.keys = []key{{s1, f1}, {s2, f2}}
+	if r.Chance(0.4) {
+		g.keys = append(g.keys, key{s1, (f1 + 1) % len(FieldNames)})
+	}
+	lo := int64(r.Intn(5))
+	n := int64(6 + r.Intn(6))
+	nfile := 1 + r.Intn(2)
+	for f := 0; f < nfile; f++ {
+		var es []string
+		for _, k := range g.keys {
+			for t := lo; t < lo+n; t++ {
+				if f == 0 || r.Chance(0.5) {
+					es = append(es, fmt.Sprintf("%d:%d:%d:%d", k.s, k.f, t, g.value(k.f)))
+				}
+			}
+		}
+		if len(es) == 0 {
+			es = append(es, fmt.Sprintf("%d:%d:%d:%d", s1, f1, lo, g.value(f1)))
+		}
+		g.emit("w " + strings.Join(es, ","))
+		g.emit("snap")
+	}
+	g.nfiles = nfile
+	series := func() string {
+		switch r.Intn(4) {
+		case 0:
+			return strconv.Itoa(s1)
+		case 1:
+			return strconv.Itoa(s2)
+		case 2:
+			return fmt.Sprintf("%d,%d", s1, s2)
+		}
+		return strconv.Itoa(h.Pick(r, g.keys).s)
+	}
+	deletes := func() {
+		nd := 2 + r.Intn(3)
+		a := lo + int64(r.Intn(int(n)))
+		b := a + int64(r.Intn(int(lo+n-a)))
+		for d := 0; d < nd; d++ {
+			g.emit(fmt.Sprintf("d %s %d %d", series(), a, b))
+			// next range: share the min, share the max, nest, widen, or repeat
+			switch r.Intn(6) {
+			case 0: // same min, smaller or larger max
+				b = a + int64(r.Intn(int(lo+n-a)))
+			case 1: // same max, other min
+				a = lo + int64(r.Intn(int(b-lo+1)))
+			case 2: // nested inside
+				if b > a {
+					a2 := a + int64(r.Intn(int(b-a+1)))
+					b = a2 + int64(r.Intn(int(b-a2+1)))
+					a = a2
+				}
+			case 3: // open-ended, same other bound
+				if r.Bool() {
+					a = minNano
+				} else {
+					b = maxNano
+				}
+			case 4: // unrelated
+				a = lo + int64(r.Intn(int(n)))
+				b = a + int64(r.Intn(int(lo+n-a)))
+			}
+			if a < lo && a != minNano {
+				a = lo
+			}
+		}
+	}
+	deletes()
+	if r.Chance(0.4) {
+		g.readAll()
+	}
+	restart := func() {
+		if prop == "c02" && r.Chance(0.5) {
+			g.emit("crash clean")
+		} else {
+			g.emit(h.Pick(r, []string{"reopen", "crash clean"}))
+		}
+		g.readAll()
+	}
+	restart()
+	if r.Chance(0.5) {
+		g.emit(fmt.Sprintf("c %s 0 %d", h.Pick(r, kinds), g.nfiles-1))
+		g.nfiles = 1
+		g.readAll()
+		if r.Chance(0.5) {
+			restart()
+		}
+	}
+	if r.Chance(0.4) {
+		deletes()
+		restart()
+	}
+	return g.ops
 }
 
 // epochCase: every snapshot ("epoch") holds its own, disjoint time range of the focus keys, so
@@ -474,6 +589,10 @@ func fixedCases(prop string) [][]string {
 			// a partial delete in the newer of two time-disjoint files, then both compacted (fast path copies blocks)
 			[]string{"w 0:0:1:1,0:0:2:2", "snap", "w 0:0:5:5,0:0:6:6,0:0:7:7", "snap", "d 0 6 6", "c lf 0 1", "r 0 0 0 1000 1", "reopen", "r 0 0 0 1000 1"},
 			[]string{"w 0:0:1:1", "snap", "w 0:0:5:5,0:0:6:6", "snap", "w 0:0:9:9", "snap", "d 0 5 5", "c lf 0 2", "r 0 0 0 1000 0", "crash clean", "r 0 0 0 1000 1"},
+			// tombstones with a shared bound in one tombstone file, replayed at open
+			[]string{"w 0:0:1:1,0:0:2:2,0:0:3:3,0:0:4:4,0:0:5:5", "snap", "d 0 1 4", "d 0 1 2", "reopen", "r 0 0 0 1000 1"},
+			[]string{"w 0:0:1:1,0:0:2:2,0:0:3:3,0:0:4:4,0:0:5:5,1:1:2:2,1:1:3:3,1:1:5:5", "snap", "d 0 4 5", "d 1 2 5", "crash clean",
+				"r 0 0 0 1000 1", "r 1 1 0 1000 1", "c full 0 0", "r 0 0 0 1000 0"},
 			bigBlockCase("full", "reopen"),
 			bigBlockCase("ls", ""),
 		)
